@@ -158,7 +158,7 @@ func genC01(tier string, rng *RNG, w *CaseWriter) {
 		}
 		// (ii-b) unsigned members of the wrong kind, and signed-looking members placed among the unsigned ones
 		for _, d := range deviations() {
-			if !strings.HasPrefix(d.name, "unsigned-") && !strings.Contains(d.name, "-unsigned") && !strings.HasPrefix(d.name, "case-variant") {
+			if !strings.HasPrefix(d.name, "unsigned-") && !strings.Contains(d.name, "-unsigned") && !strings.HasPrefix(d.name, "case-variant") && !strings.HasPrefix(d.name, "cty-") {
 				continue
 			}
 			for _, e := range envs[:2] {
